@@ -1625,7 +1625,7 @@ fn run_real_proof_subcheck(ctx: &Arc<Ctx>) {
     // Each evaluation builds the Orchard verifying key and re-verifies a 16-action proof twice (seconds of CPU).
     let (pos, write_segments): (Vec<u64>, u64) = match &pre {
         Ok(info) => {
-            let mut set: std::collections::BTreeSet<u64> = positions(info.s, &[0x1357_9bdf, 0x2468_ace0, 0x0f0f_0f0f, 0xf0f0_f0f0, 0x7fff_ffff, 0x8000_0001], dense).into_iter().step_by(if dense { 3 } else { 8 }).collect();
+            let mut set: std::collections::BTreeSet<u64> = positions(info.s, &[0x1357_9bdf, 0x2468_ace0, 0x0f0f_0f0f, 0xf0f0_f0f0, 0x7fff_ffff, 0x8000_0001], dense).into_iter().step_by(if dense { 3 } else { 12 }).collect();
             let ws: Vec<&Segment> = info.segments.iter().filter(|g| g.writes).collect();
             // (quick: every fourth one, rotating with the run seed)
             for g in ws.iter().skip(if dense { 0 } else { (ctx.seed % 4) as usize }).step_by(if dense { 1 } else { 4 }) {
@@ -1635,11 +1635,11 @@ fn run_real_proof_subcheck(ctx: &Arc<Ctx>) {
         }
         Err(_) => (vec![], 0),
     };
-    // failed write statements: every one of them (quick: every fourth one, rotating with the run seed, plus the last two)
+    // failed write statements: every one of them (quick: every fifth one, rotating with the run seed, plus the last two)
     let deny: Vec<u64> = match &pre {
         Ok(info) => {
             let w = info.write_auths;
-            let mut set: std::collections::BTreeSet<u64> = (1..=w).skip(if dense { 0 } else { (ctx.seed % 4) as usize }).step_by(if dense { 1 } else { 4 }).collect();
+            let mut set: std::collections::BTreeSet<u64> = (1..=w).skip(if dense { 0 } else { (ctx.seed % 5) as usize }).step_by(if dense { 1 } else { 5 }).collect();
             set.extend([w.saturating_sub(1).max(1), w.max(1)]);
             if w == 0 {
                 set.clear();
@@ -1709,6 +1709,7 @@ fn run_real_proof_subcheck(ctx: &Arc<Ctx>) {
     ctx.extra("real_proof_fixture", serde_json::json!({ "scenario": "single minimum-denomination note; first preparation proved", "build_seconds": fx.build_seconds }));
     ctx.require_min_count(REAL_PROOF_SUB, "take-writes-wallet-tables", 1);
     ctx.require_min_count(REAL_PROOF_SUB, "faults-after-first-write", ctx.tier.pick(3, 20));
+    ctx.require_min_count(REAL_PROOF_SUB, "write-statements-made-to-fail-after-first-write", ctx.tier.pick(5, 30));
     real_proof::cleanup();
 }
 
@@ -1739,7 +1740,7 @@ fn main() {
          with a committed migration whose first preparation transaction carries a real 16-action Orchard proof (built once per process with the repository's own test pipeline); \
          operation = take_transaction_for_broadcast; index 0 = reference run + crash copy + vetoed commit, the other indices = one interrupt each (a thinned generic sample of VM \
          steps + the middle of the runs of steps during which a writing statement executed; quick: every fourth such run, rotating with the seed) or one failed write statement \
-         each (quick: every fourth + the last two).",
+         each (quick: every fifth, rotating with the seed, + the last two).",
     );
     ctx.assume("SQLITE_INTERRUPT injected through the progress handler stands for any failure that aborts the statement AND rolls the enclosing transaction back (I/O error, full disk); a write statement refused by the authorizer (SQLITE_AUTH at prepare; pool-migration store operations only) stands for a failure of one statement that leaves the transaction open (constraint violation, conversion error); torn pages / fsync ordering inside SQLite's commit are SQLite's contract and are not simulated");
     ctx.assume("take_transaction_for_broadcast extracts the transaction with a binding signature whose randomness comes from the OS, so transactions.raw is compared by length in that sub-check (the txid and every other column are compared exactly)");
@@ -1773,27 +1774,29 @@ fn main() {
     // ---- pool-migration store ----------------------------------------------------------------------------------
     if want("migration-fault-enumeration") {
         let c4 = ctx.clone();
-        ctx.run_prop_with("migration-fault-enumeration", || prop_oneof![6 => arb_c02_mig_case().boxed(), 1 => arb_c02_release_case().boxed()], tier.pick(160, 3_000), 20, move |c| run_case(&c4, c));
-        // generator health (quick-tier minima at no more than half of the smallest count measured over seeds 1..5)
+        ctx.run_prop_with("migration-fault-enumeration", || prop_oneof![6 => arb_c02_mig_case().boxed(), 1 => arb_c02_release_case().boxed()], tier.pick(160, 400), 20, move |c| run_case(&c4, c));
+        // generator health: quick-tier minima at no more than half of the smallest count measured over seeds 1..5,
+        // 987654321 and 2^64-59 (thorough: 2.5 times the cases, dense positions)
         for (label, min) in [
-            ("op:mig.replace_migration", 8),
+            ("op:mig.replace_migration", 5),
             ("op:mig.read-mutate-persist(any)", 12),
-            ("op:mig.update_transaction", 4),
-            ("op:mig.cancel_migration", 8),
-            ("op:mig.store_proved_transaction", 4),
-            ("op:mig.advance_migration", 6),
-            ("op:truncate_to_height", 5),
-            ("mig-op-changes-migration-rows", 30),
-            ("mig-op-changes-migration-and-wallet-tables", 2),
+            ("op:mig.update_transaction", 2),
+            ("op:mig.cancel_migration", 6),
+            ("op:mig.store_proved_transaction", 2),
+            ("op:mig.advance_migration", 5),
+            ("op:truncate_to_height", 3),
+            ("mig-op-changes-migration-rows", 25),
+            ("mig-op-changes-migration-and-wallet-tables", 3),
             ("wallet-op-changes-migration-rows+fault-between-writes", 3),
             ("state:2-migrations", 25),
+            ("faults-after-first-write", 500),
+            ("write-statements-made-to-fail-after-first-write", 100),
         ] {
-            ctx.require_min_count("migration-fault-enumeration", label, tier.pick(min, min * 10));
+            ctx.require_min_count("migration-fault-enumeration", label, tier.pick(min, min * 2));
         }
-        ctx.require_min_count("migration-fault-enumeration", "faults-after-first-write", tier.pick(500, 5_000));
     }
     if want("reader-snapshot-migration") {
-        ctx.run_prop_with("reader-snapshot-migration", arb_c02_mig_reader_case, tier.pick(96, 2_000), 20, run_mig_reader_case);
+        ctx.run_prop_with("reader-snapshot-migration", arb_c02_mig_reader_case, tier.pick(96, 1_000), 20, run_mig_reader_case);
         ctx.require_min_count("reader-snapshot-migration", "reader-interleavings-compared", tier.pick(400, 4_000));
         ctx.require_min_count("reader-snapshot-migration", "write-changes:check_step_satisfiability", tier.pick(12, 120));
         ctx.require_min_count("reader-snapshot-migration", "write-changes:migration-state-reads", tier.pick(4, 40));
@@ -1802,7 +1805,10 @@ fn main() {
         run_real_proof_subcheck(&ctx);
     }
     if let Some(t) = warm {
-        let _ = t.join();
+        // (after a violation the report is not held back for a fixture nobody will use)
+        if !ctx.violated() || t.is_finished() {
+            let _ = t.join();
+        }
     }
     migration::real_proof::cleanup();
     ctx.finish();
